@@ -32,7 +32,7 @@ LEVEL_NOTE = ("The mirror uses AdArray arithmetic, whose exactness is the subjec
               "only cell dofs. Finds violations, does not prove absence.")
 DESIGN_REF = "DESIGN.md section 4, C02"
 ASSUMPTIONS = ["AdArray arithmetic itself is exact (C01)", "arguments inside smooth domains (frozen rescaling)"]
-REQUIRED = {"shift": 0.1, "rbin": 0.1, "proj": 0.1, "fn": 0.1, "mat-scipy": 0.05, "leaf-md": 0.2, "leaf-atomic": 0.2}
+REQUIRED = {"shift": 0.1, "rbin": 0.1, "proj": 0.1, "fn": 0.1, "mat-scipy": 0.05, "leaf-md": 0.2, "leaf-atomic": 0.2, "leaf-md-from-shifted": 0.03}
 
 
 def strategy(tier):
